@@ -626,6 +626,11 @@ func ignored(g quiesce.G) bool {
 	return false
 }
 
+// MinQuiet is the minimum time the quiescent picture must persist. With kernel sockets in play (loopback
+// TCP) a reader can look blocked while its wake-up is still on the way; workers that draw a verdict from
+// "it never arrived" set this when such connections exist.
+var MinQuiet time.Duration
+
 // Settle waits until no goroutine (other than permanent background ones) is running, runnable,
 // sleeping or in a system call and the set of blocked goroutines is identical in `samples`
 // consecutive dumps. It is quiesce.Wait with a longer ignore list (heartbeat loops and the
@@ -636,6 +641,7 @@ func Settle(timeout time.Duration, samples int, extra func() uint64) (bool, []qu
 	}
 	deadline := time.Now().Add(timeout)
 	last, same := "", 0
+	var since time.Time
 	var lastExtra uint64
 	for {
 		gs := quiesce.Dump()
@@ -671,8 +677,9 @@ func Settle(timeout time.Duration, samples int, extra func() uint64) (bool, []qu
 				same++
 			} else {
 				same, last, lastExtra = 1, sig, ex
+				since = time.Now()
 			}
-			if same >= samples {
+			if same >= samples && time.Since(since) >= MinQuiet {
 				return true, gs
 			}
 		} else {
